@@ -4,6 +4,21 @@ from props import walklib, lib
 from props.walklib import hx, unhx
 
 
+def fault_not_stack(rng, vocab, dirs):
+    """1-2 negations that are never exhaustive and name entries of the tree (so that faults are matched by them)"""
+    layers = []
+    for _ in range(rng.choice([1, 1, 2])):
+        names = rng.sample(vocab, min(len(vocab), rng.randint(2, 4)))
+        shape = rng.choice(["any", "alt", "single"])
+        if shape == "any":
+            layers.append(rng.choice(["n:", "nc:"]) + "+".join(hx("**/" + walkgen.esc(v)) for v in names))
+        elif shape == "alt":
+            layers.append("n:" + hx("**/{" + ",".join(walkgen.esc(v) for v in names) + "}"))
+        else:
+            layers.append("n:" + hx("**/" + walkgen.esc(names[0])))
+    return ";".join(layers), "n" * len(layers), []
+
+
 def run(rep, tier, seed, replay):
     rep.rule = ("generated trees with real faults, walked as uid 65534: directories made unreadable (chmod 000) at the root / in the middle / as last "
                 "child, one or several, dangling links and links re-entering an ancestor, under every kind of combinator stack; the walk is "
@@ -13,6 +28,11 @@ def run(rep, tier, seed, replay):
     n = 260 if tier == "quick" else 3500
     cases = walklib.gen_cases(seed, n, faults=True)
     cases += walklib.gen_cases(seed + 7, n // 2, faults=True, stack=lambda r, v, d: ("-", "-", []), bounds="none", mode="p")
+    # negations that match the faults themselves (never exhaustive, so nothing is pruned): errors pass through
+    aimed = walklib.gen_cases(seed + 13, n // 2, faults=True, stack=fault_not_stack, bounds="none", mode="p")
+    for c in aimed:
+        c.labels["aimed"] = True
+    cases += aimed
     if replay is not None:
         cases = [walklib.case_from(replay["input"])]
     # the fault-free twin: unreadable directories become empty readable ones
@@ -76,6 +96,23 @@ def run(rep, tier, seed, replay):
             continue
         rep.stats["ok-entries = fault-free walk of the readable part"] += 1
         # every unreadable directory whose entry is yielded (and not discarded as a tree, nor at the maximum depth) is followed by one error item naming it
+        only_never_nots = c.stack != "-" and all(l.startswith(("n:", "nc:")) for l in c.stack.split(";")) and (c.mn, c.mx) == ("-", "-") and c.mode == "p"
+        if only_never_nots:
+            # "negations pass error items through": when every pattern of every negation is never exhaustive nothing is
+            # pruned, so every fault that a walk without the negations reports is still reported, once, in place
+            pats = sorted({x for l in c.stack.split(";") for x in l.split(":", 1)[1].split("+")})
+            verdicts = [lib.parse_impl_build(a).get("exh") for a in common.harness().ask(["B " + x for x in pats])]
+            if all(v == "never" for v in verdicts):
+                bare = c.clone(stack="-")
+                walklib.run_cases([bare], as_nobody=True, with_model=False)
+                if bare.head.startswith("root="):
+                    berrs = walklib.err_items(bare.f.get("items"))
+                    if sorted(map(str, berrs)) != sorted(map(str, errs)):
+                        lost = [e for e in berrs if e not in errs]
+                        rep.violation("oracle", ("a negation that is never exhaustive swallows the error item of %r" % (lost[0][0],)) if lost else "a negation changes the error items of the walk",
+                                      c.describe(), impl=c.impl[:400])
+                    else:
+                        rep.stats["never-exhaustive negations pass every error item through"] += 1
         if c.stack == "-" and (c.mn, c.mx) == ("-", "-") and c.mode == "p":
             ulist = [p for p, k, _d in nodes if k == "u"]
             base_p = unhx(c.f.get("base", "-"))
